@@ -209,6 +209,20 @@ SerFilter(sc, c, v) ==
      \/ (c.sel = <<"gin","macro">> /\ v \in {L1, L2, R(<<"x","Gee">>, <<>>, "call")} /\ Len(sc) = 1)
 NamesSer == <<"p", "q", "value", "z">>
 
+------------------------------------------------------------------------------
+(* C08 API half: names that become ambiguous when a later registration arrives *)
+SpA == [ Base EXCEPT !.sel = <<"m","f">>, !.pos = <<"p">>, !.npd = 1, !.dflt = {<<"p", D("p")>>} ]
+SpB == [ Base EXCEPT !.sel = <<"n","f">>, !.pos = <<"p">>, !.npd = 1, !.dflt = {<<"p", D("p")>>}, !.api = "external" ]
+SpC == [ Base EXCEPT !.sel = <<"n","m","f">>, !.kind = "cls", !.pos = <<"p">>, !.npd = 1, !.dflt = {<<"p", D("p")>>}, !.api = "register" ]
+SpConfs == {SpA, SpB, SpC}
+SpRegs == {{SpA}, {SpA, SpB}}
+SpFresh == {SpB, SpC}
+SpHooks == {
+  [id |-> "h1", rets |-> {HookKey(<<>>, <<"f">>, "p", L1)}, raises |-> FALSE],
+  [id |-> "h2", rets |-> {HookKey(<<>>, <<"m","f">>, "p", L2)}, raises |-> FALSE],
+  [id |-> "h3", rets |-> {HookKey(<<"a">>, <<"n","f">>, "p", L2)}, raises |-> FALSE] }
+Spellings == { <<"f">>, <<"m","f">>, <<"n","f">>, <<"n","m","f">>, <<"x","f">> }
+
 \* C07's replay clause speaks about a fixed configuration followed by calls
 BindsThenCalls == (okeys # {}) => (out.op # "Bind")
 OperBound == Cardinality(okeys) <= 2
